@@ -124,6 +124,13 @@ def run_check(prop: str, tier: str, seed: int) -> int:
     if infra and exit_code == 0:
         log(f"[{prop}] INFRA: {len(infra)} cases could not be run: {infra[0][1]['detail']}")
         exit_code = 2
+    # model vs pointwise specification inside the theorem's hypotheses (modules that report `spec_eq_model`):
+    # a difference contradicts a proved theorem, so it is a defect of the machinery (driver / checker), never a verdict
+    spec_bad = [r for r in recs if r["model"].get("spec_eq_model") is False]
+    if spec_bad and exit_code == 0 and st.ok:
+        log(f"[{prop}] INFRA: model differs from the pointwise specification inside WF on {len(spec_bad)} cases; "
+            f"first: {spec_bad[0]['case']['id']} model={str(spec_bad[0]['model'].get('answers'))[:300]} spec={str(spec_bad[0]['model'].get('spec'))[:300]}")
+        exit_code = 2
 
     # evidence
     distinct = set()
@@ -156,6 +163,8 @@ def run_check(prop: str, tier: str, seed: int) -> int:
         "samples": samples,
         "traces_validated_against_impl": agree,
         "cases_inside_WF": wf_in,
+        "spec_checked_inside_WF": sum(1 for r in recs if r["model"].get("spec_eq_model") is not None),
+        "spec_mismatches": sum(1 for r in recs if r["model"].get("spec_eq_model") is False),
         "branch_histogram": dict(branch),
         "queries_total": sum(len(r["case"].get("queries", [])) for r in recs),
         "impl_failures": len(fails), "model_differences": len(mdiffs), "known_findings_hit": len(known_lines),
